@@ -190,6 +190,13 @@ def main(argv=None):
 
     prop = a.prop
     names = [n for n, un in UNITS.items() if prop in un.props and (tier == "thorough" or un.tier == "quick")]
+    # C06 ("a status or a deliberate error, never an internal crash") owns the IMPLICIT obligations of every unit:
+    # asserts, divisions, math domains, subscripts, operand lengths, format codes and reductions of possibly empty
+    # arrays generated from whatever code a unit executes - also of units written for another property
+    guests = set()
+    if prop == "C06":
+        guests = {n for n, un in UNITS.items() if prop not in un.props and un.tier == "quick" and "[bounded" not in n}
+        names = names + sorted(guests)
     if tier == "thorough":
         # a thorough-only unit with a larger bound supersedes its quick counterpart
         sup = {n.split("[bounded")[0] for n in names if UNITS[n].tier == "thorough" and "[bounded" in n}
@@ -225,7 +232,10 @@ def main(argv=None):
         elif r["status"] == "unsupported":
             undecided.append((n, "unsupported: " + r["message"]))
         for site, d in r["sites"].items():
-            if d.get("props") is not None and prop not in d["props"]:
+            if n in guests:
+                if d["kind"] not in IMPLICIT_KINDS:
+                    continue  # a guest unit contributes its implicit obligations only
+            elif d.get("props") is not None and prop not in d["props"]:
                 continue  # obligation of a shared unit that serves other properties only
             solver_time += d["time_s"]
             backends.update(d["backends"])
@@ -268,7 +278,7 @@ def main(argv=None):
             ent = ent if isinstance(ent, list) else [ent, None]
             st, pr = ent[0], ent[1]
             kd = ent[2] if len(ent) > 2 else None
-            if pr is not None and prop not in pr:
+            if n in guests or (pr is not None and prop not in pr):
                 continue
             if kd in IMPLICIT_KINDS:
                 # an obligation that exists only because the code contains a construct (an assert statement, a float
